@@ -37,7 +37,7 @@ TAU = 3e-9
 
 
 def cases(tier, seed):
-    reps = 5 if tier == "quick" else 200
+    reps = 5 if tier == "quick" else 1500
     out = []
     for nv in range(1, 5):
         for nh in range(1, 5):
